@@ -75,8 +75,9 @@ def hashedOptionNames : List String :=
 def comparedFields : List String :=
   ["version", "arguments_hash", "plugins_hash", "filepath", "filehash", "imports"]
 
-/-- Exception classes caught around `deserialise` in the gate (Tie A). -/
-def caughtExceptions : List String := ["json.decoder.JSONDecodeError"]
+/-- Exception classes caught around `deserialise` in the gate (Tie A). Since the upstream fix
+16f7ad6 ("treat an unreadable or wrong-shaped cache file as stale") this is `Exception`. -/
+def caughtExceptions : List String := ["Exception"]
 
 /-- The conjunction at the end of `target_cache_file_is_up_to_date`. -/
 def upToDate [DecidableEq P] [DecidableEq H] [DecidableEq O]
@@ -113,12 +114,26 @@ def make (D : Dir P H) (A : Analysis P H O X R) (w : World P H O X) : Doc P H O 
 
 /-! ## The cache file and the gate -/
 
-/-- Exceptions that escape `deserialise` other than `JSONDecodeError`. -/
+/-- Exceptions raised while the gate runs, other than `JSONDecodeError`. The first three come out
+of `Path(cache).read_text()` / `deserialise` (inside the `try`); `osError` comes out of
+`hash_file_content` in the comparison conjunction (outside the `try`). -/
 inductive StructErr where
   | typeError        -- `'version' in o` on a non-container
   | classValidation  -- cattrs `ClassValidationError` (a field failed to structure)
   | unicodeDecode    -- `read_text()` on bytes that are not UTF-8
+  | osError          -- `open()/read()` fails on a path for which `isfile` is true
   deriving DecidableEq, Repr
+
+/-- The Python class of each exception. -/
+def excName : StructErr → String
+  | .typeError => "TypeError"
+  | .classValidation => "cattrs.errors.ClassValidationError"
+  | .unicodeDecode => "UnicodeDecodeError"
+  | .osError => "OSError"
+
+/-- Does an `except <classes>:` clause catch `e`? (All four are subclasses of `Exception`.) -/
+def isCaught (classes : List String) (e : StructErr) : Bool :=
+  classes.contains "Exception" || classes.contains "BaseException" || classes.contains (excName e)
 
 /-- The cache file as the gate sees it. -/
 inductive CacheFile (P H O R : Type) where
@@ -132,16 +147,54 @@ inductive Verdict where
   | fresh | stale | crash (e : StructErr)
   deriving DecidableEq, Repr
 
-/-- `target_cache_file_is_up_to_date(target, cache)`. -/
+/-- `target_cache_file_is_up_to_date(target, cache)` over a directory structure in which every
+regular file can be read (the fragment of the history theorems; `gateIO` below lifts that). An
+exception out of `read_text` / `deserialise` is answered according to the `except` clause. -/
 def gate [DecidableEq P] [DecidableEq H] [DecidableEq O]
     (D : Dir P H) (w : World P H O X) (f : CacheFile P H O R) : Verdict :=
   if D.isFile w.target then
     match f with
     | .absent => .stale
     | .malformed => .stale
-    | .crashing e => .crash e
+    | .crashing e => if isCaught caughtExceptions e then .stale else .crash e
     | .valid d => if upToDate D w d then .fresh else .stale
   else .stale
+
+/-! ### Where the conjunction itself can still raise
+
+`hash_file_content(p)` is `isfile(p)` (never raises: `OSError`/`ValueError` are swallowed, so NUL
+bytes, lone surrogates, over-long names, directories and devices are simply "not a file") followed
+by `open(p, "rb")` + `read`, which raise `OSError` when `p` is a regular file that cannot be read
+(permissions, `/proc/self/mem`, I/O errors). The conjunction is outside the `try`, so that
+exception escapes. Python's `and` / `all` short-circuit, so the read of an import's file happens only
+if every earlier conjunct held. `unr p` = "`p` is a regular file whose read raises". -/
+
+/-- Does `all(info.filehash == hash_file_content(info.filepath) for info in imports)` raise? -/
+def importsRaise [DecidableEq H] (D : Dir P H) (unr : P → Bool) (w : World P H O X) :
+    List (P × H) → Bool
+  | [] => false
+  | i :: r =>
+    if D.isFile i.1 && unr i.1 then true
+    else if i.2 = hashFile D w i.1 then importsRaise D unr w r
+    else false
+
+/-- Does the comparison conjunction raise `OSError` on document `d`? -/
+def readRaises [DecidableEq P] [DecidableEq H] [DecidableEq O]
+    (D : Dir P H) (unr : P → Bool) (w : World P H O X) (d : Doc P H O R) : Bool :=
+  decide (d.version = w.version)
+  && decide (d.argumentsHash = w.opts)
+  && decide (d.pluginsHash = w.plugins)
+  && decide (d.filepath = w.target)
+  && ((D.isFile w.target && unr w.target)
+      || (decide (d.filehash = hashFile D w w.target) && importsRaise D unr w d.imports))
+
+/-- The gate with unreadable regular files taken into account. -/
+def gateIO [DecidableEq P] [DecidableEq H] [DecidableEq O]
+    (D : Dir P H) (unr : P → Bool) (w : World P H O X) (f : CacheFile P H O R) : Verdict :=
+  match f with
+  | .valid d =>
+    if D.isFile w.target && readRaises D unr w d then .crash .osError else gate D w f
+  | _ => gate D w f
 
 /-! ## `main` as a state machine over histories -/
 
@@ -385,6 +438,11 @@ def classify (render : JVal → Str) : Option FileContent → CacheFile Str Str 
 def gateJ (render : JVal → Str) (D : Dir Str Str) (w : World Str Str Str X)
     (f : Option FileContent) : Verdict :=
   gate D w (classify render f)
+
+/-- The gate on raw file content, with unreadable regular files. -/
+def gateJIO (render : JVal → Str) (D : Dir Str Str) (unr : Str → Bool) (w : World Str Str Str X)
+    (f : Option FileContent) : Verdict :=
+  gateIO D unr w (classify render f)
 
 /-- The shape the cache document is declared to have (independent of cattrs' leniency): an object
 whose fields, where present, have the JSON types of the attrs declaration. -/
